@@ -190,7 +190,7 @@ type summary struct {
 	// CWrites: roots of maps that only receive inserts of constant values
 	// (set insertion: idempotent and commutative)
 	CWrites map[root]string
-	Emits  map[string]bool // Warning | Info | Abort | print | log
+	Emits   map[string]bool // Warning | Info | Abort | print | log
 }
 
 type summarizer struct {
